@@ -1,12 +1,140 @@
-"""Per-property statement of what is decided (clause) and what is not."""
+"""Per-property statement of what is decided (clause) and what is not.  The rule table itself lives in rules/*;
+a rule serves a property iff the property id is in the rule's `props` dict (with its necessity argument)."""
 
 PROPS = {
+    'C02': {
+        'explanation': 'Clause decided: operand symmetry and monotone absorption of merge. For the lattice-shaped types every part of `other` '
+                       'reaches `self` through a guard that only keeps the larger/union (VC-MERGE, GC-DELEGATE, CNT-ROUTE, GSET-GLIST, LWW/MAXMIN-UPDATE '
+                       'and -ROUTE, MK-MERGE); for Orswot/Map the two one-sided branches use mirrored drop decisions on pre-merge clocks and the '
+                       'both-present formula is symmetric (MERGE-DROP, MERGE-COMMON); for MVReg the pairwise keep/drop table is symmetric and '
+                       'idempotent (MRG-MVREG). All decided over every MIR path, i.e. every input.',
+        'decides': 'MRG-ABSORB instances (9 types), MERGE-DROP x4, MERGE-COMMON x2, MRG-MVREG',
+        'not_decided': 'associativity, and the laws on reachable Map states (known to fail on a three-op history; no structural signature)',
+    },
+    'C03': {
+        'explanation': 'Clause decided: a merged state cannot lack what the ops behind `other` carry — data (absorption rules), removals '
+                       '(MERGE-DROP, MERGE-COMMON), pending removes (DEF-MERGE), clock (ABSORB-MERGE), nested resets (MAP-RESET-PAIR), '
+                       'MerkleReg dag and orphans re-applied as ops (MK-MERGE).',
+        'decides': 'absorption of everything in other, ABSORB-MERGE, MERGE-DROP/COMMON, DEF-MERGE, MAP-RESET-PAIR, MK-MERGE',
+        'not_decided': 'the equivalence merge == op delivery itself (fails today for Map on a same-actor reset-remove history)',
+    },
+    'C04': {
+        'explanation': 'Clause decided: witness bookkeeping of Orswot add / rm / merge / contains: gated stamping of every member (GATE, STAMP), '
+                       'remove subtracts exactly the op clock and prunes on empty (RM, VC-RESET), merge decisions and common-dots formula '
+                       '(MERGE-DROP, MERGE-COMMON, VC-INTERSECT), no empty witness is kept (RR-PRUNE), read contexts come from the member clock '
+                       '(CTX-READ), op constructors use ctx.dot / ctx.clock (CTX-OPS).',
+        'decides': 'GATE, ABSORB, STAMP, RM, MERGE-DROP, MERGE-COMMON, RR-PRUNE, CTX-READ, CTX-OPS, VC-RESET, VC-INTERSECT (Orswot instances)',
+        'not_decided': 'membership for every history as a behavioural statement',
+    },
+    'C05': {
+        'explanation': 'Clause decided: entry-clock bookkeeping of Map and propagation of resets to the nested value: gated Up stamps the entry '
+                       'clock and forwards the nested op (GATE, STAMP), key remove subtracts the op clock, prunes, and resets the nested value '
+                       'with the same clock (RM), merge decisions/formula (MERGE-DROP, MERGE-COMMON), nested value reset wherever an entry is '
+                       'kept with a reduced clock (MAP-RESET-PAIR, RR-COVER), read contexts (CTX-READ), op constructors (CTX-OPS).',
+        'decides': 'GATE, ABSORB, STAMP, RM, MERGE-DROP, MERGE-COMMON, MAP-RESET-PAIR, RR-COVER, RR-PRUNE, CTX-READ, CTX-OPS (Map instances)',
+        'not_decided': 'the multi-step contents of nested values (two histories fail today: the nested context carries dots the entry clock lacks)',
+    },
+    'C06': {
+        'explanation': 'Clause decided: the dominance filters of MVReg: Put evicts exactly the values it dominates or equals (MV-EVICT), is stored '
+                       'iff no existing clock is strictly greater (MV-IGNORE), write() carries the whole context clock (MV-WRITE), read returns '
+                       'every value with the join of all value clocks (MV-READ), merge keeps the undominated values of both sides once '
+                       '(MRG-MVREG); VClock::partial_cmp is the pointwise order (VC-PCMP).',
+        'decides': 'MV-EVICT, MV-IGNORE, MV-WRITE, MV-READ, MRG-MVREG, VC-PCMP',
+        'not_decided': 'the behavioural statement over all delivery orders',
+    },
+    'C07': {
+        'explanation': 'Clause decided: provenance of every context field: 13 read entry points (CTX-READ 11 + MV-READ 2), derive_add_ctx / '
+                       'derive_rm_ctx / split (CTX-DERIVE), op constructors (CTX-OPS, MV-WRITE), the dot is get+1 (VC-INC), every gated apply '
+                       'and every merge absorbs into the replica clock (ABSORB, ABSORB-MERGE), reads and op constructors write nothing (CTX-PURE).',
+        'decides': 'CTX-READ, MV-READ, CTX-DERIVE, CTX-OPS, MV-WRITE, VC-INC, ABSORB, ABSORB-MERGE, CTX-PURE',
+        'not_decided': 'exactness of contexts for values nested inside a Map (excluded by the property) and as a behavioural statement',
+    },
+    'C08': {
+        'explanation': 'Clause decided: defer decision, re-examination and travel of pending removes: a remove is remembered under {Gt, None} of '
+                       '(rm clock, replica clock) (DEF-DECIDE must), re-examined after every clock growth (DEF-REEXAM), the table is taken then '
+                       'replayed (DEF-TAKE), pending removes travel with merge (DEF-MERGE), the replay goes through the same remove routine (RM); '
+                       'MVReg part: MV-EVICT, MV-IGNORE; MerkleReg: MK-REEXAM.',
+        'decides': 'DEF-DECIDE(must), DEF-REEXAM, DEF-TAKE, DEF-MERGE, RM, MV-EVICT, MV-IGNORE, MK-REEXAM, VC-PCMP',
+        'not_decided': 'that the final result equals what causal delivery would have produced, for every schedule',
+    },
     'C09': {
-        'explanation': 'Decides the structural clause "dedup gates, clock absorption, merge drop decisions": every state '
-                       'write of a dot-carrying apply arm is reachable only when clock.get(actor) < dot.counter, the dot is '
-                       'always absorbed into the replica clock, merges join the clocks. Evaluated over all MIR paths, hence all inputs.',
-        'decides': 'GATE, GATE-MERKLE, ABSORB, ABSORB-MERGE (and merge drop decisions when present)',
+        'explanation': 'Clause decided: dedup gates, clock absorption, merge drop decisions: every state write of a dot-carrying apply arm is '
+                       'reachable only when clock.get(actor) < dot.counter (GATE x4, GATE-MERKLE), the dot is always absorbed into the replica '
+                       'clock (ABSORB, ABSORB-MERGE), an entry only the other side has is adopted only when our clock does not cover it and '
+                       'ours is dropped exactly when theirs covers it (MERGE-DROP, MERGE-COMMON), a stale dot never lowers a counter (VC-APPLY), '
+                       'MVReg duplicates are not re-stored (MV-EVICT, MV-IGNORE).',
+        'decides': 'GATE, GATE-MERKLE, ABSORB, ABSORB-MERGE, MERGE-DROP, MERGE-COMMON, VC-APPLY, MV-EVICT, MV-IGNORE',
         'not_decided': 'the behavioural statement "nothing observable changes" for every history; multi-step Map histories',
+    },
+    'C10': {
+        'explanation': 'Clause decided: polarity and operands of every VClock/Dot primitive: apply, reset_remove, intersection, glb, validate_op, '
+                       'inc, merge, partial_cmp (4 results + scans), concurrent, Dot::partial_cmp, and the who-may-write census of dots.',
+        'decides': 'VC-APPLY, VC-RESET, VC-INTERSECT, VC-GLB, VC-VALIDATE, VC-INC, VC-MERGE, VC-PCMP x4, VC-CONC, DOT-PCMP, VC-NOZERO',
+        'not_decided': 'the order-theoretic laws as theorems (they follow on paper from the per-actor comparisons decided here)',
+    },
+    'C11': {
+        'explanation': 'Clause decided: operand routing and guard polarity of counters and registers: GCounter::read sums every dot, PNCounter '
+                       'read = read(p) - read(n), Dir<->field routing in apply/validate_op/inc/dec/inc_many/dec_many, componentwise '
+                       'merge/reset/validate_merge, inc = get+1, inc_many = steps + get, LWW update guard (must under <, never under >) and '
+                       'conflict condition, Max/Min guards, delegation of merge/apply to the guarded update, GSet union.',
+        'decides': 'CNT-READ, CNT-ROUTE, CNT-STEP, GC-DELEGATE, VC-APPLY, VC-MERGE, VC-INC, LWW-UPDATE, LWW-CONFLICT, LWW-ROUTE, MAXMIN-UPDATE, MAXMIN-ROUTE, GSET-GLIST',
+        'not_decided': 'numeric results (u64 overflow of counters is a runtime quantity)',
+    },
+    'C12': {
+        'explanation': 'Clause decided: dedup gate of List::apply (both op variants), absorption of the op dot, fresh-dot tagging of '
+                       'insert_index/delete_index and agreement of Op::dot() with the identifier marker, and the identifier comparison table.',
+        'decides': 'GATE(list), ABSORB(list), LIST-TAG, VC-INC, ID-CMP',
+        'not_decided': 'that positions are consistent across replicas (depends on the values Identifier::between produces)',
+    },
+    'C14': {
+        'explanation': 'Clause decided: the decision table of Identifier::cmp over (self has node, other has node, node ordering): Equal for two '
+                       'exhausted paths, antisymmetric prefix rule, node ordering decides with the right orientation, equal nodes continue; '
+                       'partial_cmp == Some(cmp).',
+        'decides': 'ID-CMP, ID-PCMP',
+        'not_decided': 'density of between() (midpoint arithmetic and path walk are value-level)',
+    },
+    'C15': {
+        'explanation': 'Clause decided: MerkleReg gate, dag/orphan routing by "all children in dag", orphan re-examination after a node becomes '
+                       'visible, merge re-applies dag and orphans, read = roots looked up in dag, validate_op uses the same presence notion.',
+        'decides': 'GATE-MERKLE, MK-ROUTE, MK-REEXAM, MK-MERGE, MK-READ, MK-VALIDATE',
+        'not_decided': 'content addressing (hash collisions) and the behavioural statement over all arrival orders',
+    },
+    'C16': {
+        'explanation': 'Clause decided: what validate_op consults and under which outcome Err is returned: sibling cross-check of validate_op '
+                       'against the apply gate (VAL-SIBLING), VClock::validate_op rejects exactly counter > get+1 (VC-VALIDATE), removes are '
+                       'accepted (VAL-RM-OK), Map forwards the nested op (VAL-NESTED), MerkleReg child presence (MK-VALIDATE), LWW conflict '
+                       '(LWW-CONFLICT, LWW-ROUTE), order-free types have Validation = Infallible (VAL-INFALLIBLE).',
+        'decides': 'VAL-SIBLING, VC-VALIDATE, VAL-RM-OK, VAL-NESTED, MK-VALIDATE, LWW-CONFLICT, LWW-ROUTE, VAL-INFALLIBLE, CNT-ROUTE(validate_op)',
+        'not_decided': 'acceptance of every in-order op as a behavioural statement over all reachable states',
+    },
+    'C17': {
+        'explanation': 'Clause decided: the error condition of validate_merge and its consistency with how dots are stamped: DoubleSpentDot exactly '
+                       'under (different element, equal counter) over all pairs and dots, Map recursion exactly for equal keys with concurrent '
+                       'clocks (VM-COND), LWW marker conflict (LWW-CONFLICT, LWW-ROUTE), the one-dot-one-element belief is contradicted by apply '
+                       '(VM-BELIEF: fires on Orswot add_all = known finding), conflict-free types have Validation = Infallible.',
+        'decides': 'VM-COND, VM-BELIEF, LWW-CONFLICT, LWW-ROUTE, VAL-INFALLIBLE, VC-CONC, CNT-ROUTE(validate_merge)',
+        'not_decided': 'symmetry of the verdict in both directions and completeness for deliberate actor reuse, as behavioural statements',
+    },
+    'C18': {
+        'explanation': 'Clause decided: per-actor subtraction (VC-RESET: removed exactly under c.counter >= self.get(actor)), coverage of every '
+                       'clock-carrying field by every ResetRemove impl (RR-COVER, GC-DELEGATE, CNT-ROUTE), pruning of emptied elements, pending '
+                       'removes and register values (RR-PRUNE).',
+        'decides': 'VC-RESET, RR-COVER, RR-PRUNE, GC-DELEGATE, CNT-ROUTE(reset_remove)',
+        'not_decided': 'the algebraic identities (c1 then c2 = join; idempotence) — they follow on paper from VC-RESET being per-actor >=',
+    },
+    'C19': {
+        'explanation': 'Clause decided: wire-format well-formedness read from the derived Serialize/Deserialize MIR bodies: every state/op type has '
+                       'both impls (SER-BOTH), every field is written and required (SER-ALLFIELDS), no field is a JSON map with a structured key '
+                       '(SER-MAPKEY: fires on Orswot.deferred and Map.deferred = known findings), the pair-list helper is symmetric (SER-WITH-SYM).',
+        'decides': 'SER-BOTH, SER-ALLFIELDS, SER-MAPKEY, SER-WITH-SYM',
+        'not_decided': 'value equality and behavioural identity after a round-trip (runtime quantities)',
+    },
+    'C20': {
+        'explanation': 'Clause decided: no residue is stored: no empty witness survives a remove, a merge or a reset (RM/prune, MERGE-COMMON/prune, '
+                       'MERGE-DROP, RR-PRUNE), a covered remove is never stored as pending (DEF-DECIDE may), covered pending removes disappear '
+                       'at re-examination (DEF-TAKE, DEF-REEXAM).',
+        'decides': 'RM(prune), MERGE-COMMON(prune), MERGE-DROP, RR-PRUNE, DEF-DECIDE(may), DEF-TAKE, DEF-REEXAM',
+        'not_decided': 'structural equality of replicas with equal knowledge (fails today for Map<_, MVReg>; no structural signature)',
     },
 }
 
@@ -17,7 +145,3 @@ NOT_APPLICABLE = {
     'C13': 'pure index arithmetic over runtime lengths (ix.min(len), skip(ix-1), range().find): a value-level quantity with no '
            'structural clause that is not a frozen source fragment',
 }
-_PENDING = ['C02', 'C03', 'C04', 'C05', 'C06', 'C07', 'C08', 'C10', 'C11', 'C12', 'C14', 'C15', 'C16', 'C17', 'C18', 'C19', 'C20']
-for _p in _PENDING:
-    if _p not in PROPS:
-        NOT_APPLICABLE[_p] = 'check under construction in this session (rules designed in DESIGN.md §4, not yet armed)'
